@@ -1125,7 +1125,23 @@ def run(ctx):
                    "numpy / libm arctan, cos, sin, sqrt, atan2; shapely bounds, centroid and affinity.rotate (oracle inputs of "
                    "the placement / enclosure model; the enclosure theorems (..._partial) carry the trigonometric facts "
                    "assumed about them as hypotheses orc_ok / dev_ok, see Props/C04.v)"]
+    ctx.trusted.insert(3, "harness/vlib/py2coq.py + harness/props/c04_src.py: translator (symbolic execution, fail-closed) of "
+                          "Trajectory.state_at_time_step, Prediction.occupancy_at_time_step, StaticObstacle / DynamicObstacle "
+                          "occupancy_at_time and state_at_time (scenario/trajectory.py, prediction/prediction.py, "
+                          "scenario/obstacle.py) into coq/Gen/Src_dispatch.v on every run, one definition per prediction "
+                          "configuration; C04_model_is_source proves the dispatch of Model/Occupancy.v equal to that text; "
+                          "states and shapes opaque, the cached attributes _initial_occupancy_shape and "
+                          "TrajectoryPrediction.occupancy_set read as fields (hypotheses shape_ok / occs_ok, observed by the "
+                          "correspondence), pyindex / len / first-hit for-loop as in c04_src.py")
     t_start = time.time()
+    from props import c04_src
+    try:
+        changed = c04_src.generate()
+        ctx.notes.append(f"Gen/Src_dispatch.v regenerated from the source ({'changed' if changed else 'unchanged'})")
+    except Exception as e:   # TranslationError, SyntaxError, OSError: fail closed, the model is no longer shown to be the source
+        ctx.proof_breaks.append({"theorem": "translator:Gen/Src_dispatch.v (C04_model_is_source)",
+                                 "where": "harness/props/c04_src.py", "log": str(e)})
+        ctx.log(f"translator failed: {e}")
     ctx.build_props(extra_targets=("Corr/C04.vo",))
     t_built = time.time()
     if ctx.tier == "thorough":
